@@ -104,6 +104,9 @@ package grpc
 //@   assert at call throttle#3 ncalls("throttle") == 0 && rp != nil && rp.RetryableStatusCodes[code] && implies(hasPushback, pushback >= 0)
 //@   assert at call Errorf#1 ncalls("throttle") == 1 && cs.numRetries+1 >= rp.MaxAttempts
 //@   assert at call NewTimer#1 ncalls("throttle") == 1
+//@   assert at return 2 !old(cs.finished) && !old(cs.committed) && !old(a.drop) && a.transportStream == nil && a.allowTransparentRetry
+//@   assert at return 3 !old(cs.finished) && !old(cs.committed) && !old(a.drop) && cs.firstAttempt && lastret("Unprocessed") == 1
+//@   assert at call NewTimer#1 !old(cs.finished) && !old(cs.committed) && !old(a.drop) && (ncalls("TrailersOnly") == 0 || lastret("TrailersOnly") == 1)
 //@   assert at call NewTimer#1 rp != nil && cs.numRetries+1 < rp.MaxAttempts
 //@   assert at call NewTimer#1 implies(hasPushback && Z(pushback) <= 9223372036854, Z(arg0) == 1000000 * Z(pushback) && cs.numRetriesSincePushback == 0)
 
@@ -250,3 +253,76 @@ package grpc
 //@   assert at return 2 lastret("checkRecvPayload") != 0 && result1 != nil
 //@   assert at return 4 lastret("checkRecvPayload") == 0 && result1 == nil
 //@   assert at return 4 implies(pf != compressionMade, sameslice(result0, compressed)) && implies(pf == compressionMade, ncalls("decompress") == 1)
+
+// ---- C18: retries: who may retry, what a retry replays ------------------------------------
+//
+// cs.mu protects the retry bookkeeping; while withRetry runs an operation with
+// the mutex released another goroutine (a concurrent RecvMsg/SendMsg of the same
+// stream) may replace cs.attempt, so everything read after re-acquiring the
+// mutex is arbitrary again (monitor rule).
+
+//@ monitor clientStream.mu protects committed, attempt, replayBuffer, replayBufferSize, numRetries, numRetriesSincePushback, finished, firstAttempt
+
+// withRetry: the result of an operation counts (is recorded for replay through
+// onSuccess, or is handed to the retry decision) only if the attempt it ran on
+// is still the stream's current attempt; on a committed stream the operation
+// runs directly on the current attempt.
+//@ func (*clientStream).withRetry
+//@   prop C18
+//@   requires cs != nil
+//@   requires errContextDeadline != nil && isstatus(errContextDeadline) && errContextCanceled != nil && isstatus(errContextCanceled)
+//@   loop 1 invariant cs != nil
+//@   assert at call op#1 cs.committed && arg0 == cs.attempt
+//@   assert at call op#2 arg0 == a
+//@   assert at call onSuccess#1 a == cs.attempt && (err == nil || err == io.EOF)
+//@   assert at call retryLocked#1 arg0 == cs && arg1 == a && a == cs.attempt && arg2 == err && err != nil
+
+// retryLocked: a new attempt is created only after shouldRetry allowed it (with
+// the transparency it decided), the stream is committed when it refused, and
+// the buffered operations are replayed on the new attempt.
+//@ func (*clientStream).retryLocked
+//@   prop C18
+//@   requires cs != nil
+//@   requires errContextDeadline != nil && isstatus(errContextDeadline) && errContextCanceled != nil && isstatus(errContextCanceled)
+//@   loop 1 invariant cs != nil && ncalls("shouldRetry") >= 0
+//@   assert at call shouldRetry#1 arg0 == attempt && arg1 == lastErr
+//@   assert at call commitAttemptLocked#1 arg0 == cs && err != nil
+//@   assert at call newAttemptLocked#1 arg0 == cs && arg1 == isTransparent && err == nil && ncalls("shouldRetry") >= 1
+//@   assert at call replayBufferLocked#1 arg0 == cs && arg1 == attempt && err == nil
+
+// replayBufferLocked: every buffered operation runs on the new attempt, in
+// buffer order, until one fails; nil is returned only after all of them ran.
+//@ func (*clientStream).replayBufferLocked
+//@   prop C18
+//@   requires cs != nil
+//@   loop 1 invariant ncalls("op") == rangeindex + 1
+//@   assert at call op#1 arg0 == attempt && ncalls("op") == rangeindex
+//@   ensures implies(result == nil, ncalls("op") == old(len(cs.replayBuffer)))
+
+// bufferForRetryLocked: nothing is buffered on a committed stream; an operation
+// that takes the buffer over maxRetryRPCBufferSize commits the stream (no retry
+// afterwards) and is released; otherwise it is appended at the end of the buffer.
+//@ func (*clientStream).bufferForRetryLocked
+//@   prop C18
+//@   requires cs != nil && cs.callInfo != nil && sz >= 0 && cs.replayBufferSize >= 0 && Z(cs.replayBufferSize)+Z(sz) <= 9223372036854775807
+//@   assert at call commitAttemptLocked#1 arg0 == cs && !old(cs.committed) && Z(old(cs.replayBufferSize))+Z(sz) > Z(cs.callInfo.maxRetryRPCBufferSize)
+//@   assert at call cleanup#1 ncalls("commitAttemptLocked") == 1
+//@   assert at call append#1 !old(cs.committed) && Z(old(cs.replayBufferSize))+Z(sz) <= Z(cs.callInfo.maxRetryRPCBufferSize)
+//@   assert at return 1 old(cs.committed) && cs.replayBufferSize == old(cs.replayBufferSize) && sameslice(cs.replayBuffer, old(cs.replayBuffer))
+//@   assert at return 2 ncalls("commitAttemptLocked") == 1 && ncalls("cleanup") == 1
+
+// convertRetryPolicy: the effective attempt limit is the policy value capped by
+// the channel limit, and an accepted policy allows at least two attempts.
+//@ func isValidRetryPolicy
+//@   prop C18
+//@   nopanic
+//@   requires jrp != nil
+//@   ensures implies(result, jrp.MaxAttempts > 1 && jrp.InitialBackoff > 0 && jrp.MaxBackoff > 0 && len(jrp.RetryableStatusCodes) > 0)
+//@   ensures implies(jrp.MaxAttempts <= 1, !result)
+
+//@ func convertRetryPolicy
+//@   prop C18
+//@   loop 1 invariant rp != nil && Z(rp.MaxAttempts) == imin(Z(jrp.MaxAttempts), Z(old(maxAttempts))) && rp.RetryableStatusCodes != nil && jrp.MaxAttempts > 1
+//@   ensures implies(jrp == nil, p == nil && err == nil)
+//@   ensures implies(p != nil, err == nil && Z(p.MaxAttempts) == imin(Z(jrp.MaxAttempts), Z(old(maxAttempts))) && jrp.MaxAttempts > 1)
+//@   ensures implies(jrp != nil && jrp.MaxAttempts <= 1, p == nil && err != nil)
